@@ -122,27 +122,36 @@ def analyse_push(P):
     return problems, stats
 
 
-def analyse_append(P):
-    """returns (problems, stats): symbolic_append = every item to symbolic_push, in order, on this handle; then push(EMPTY) iff the last flag"""
+COPY = 'common::path::PathImpl::normalized'
+
+
+def analyse_append(P, fn=APPEND, copy=False):
+    """returns (problems, stats): symbolic_append = every item to symbolic_push, in order, on this handle; then push(EMPTY) iff the last flag.
+    copy=True: the same fold in PathImpl::normalized — the handle is as_path_mut() of the buffer that is returned, the items are
+    segments() of self, and the buffer starts as the EMPTY path of the kind (absolute / relative) of self."""
     from . import terms
-    b = P.bodies.get(APPEND)
+    b = P.bodies.get(fn)
     if b is None:
-        return [f'{APPEND} not found'], {}
+        return [f'{fn} not found'], {}
     T = terms.Terms(b)
+    src_arg = 1 if copy else 2
+    result = T.local(0) if copy else None
     loops = loop_info(b)
     if len(loops) != 1:
-        return [f'{len(loops)} loops in symbolic_append (1 expected: one pass over the segments)'], {}
+        return [f'{len(loops)} loops (1 expected: one pass over the segments)'], {}
     header = next(iter(loops))
     stats = {'iteration_paths': 0, 'tail_paths': 0}
     problems = []
     # the iterator: into_iter of the argument, the one `next` of the loop
     nexts = [(bi, t) for bi, t in P.calls(b) if (mir.callee(t) or '').endswith('Iterator::next') or (mir.callee(t) or '').endswith('Iterator>::next')]
     if len(nexts) != 1:
-        return [f'{len(nexts)} calls of Iterator::next in symbolic_append (1 expected)'], {}
+        return [f'{len(nexts)} calls of Iterator::next (1 expected)'], {}
     next_bb, next_t = nexts[0]
     it = T.operand(next_t['args'][0])
-    src = [n for n in terms.walk(it) if n[0] == 'call' and n[1].endswith('into_iter') and n[2] and n[2][0][:2] == ('arg', 2)]
-    if not src and not any(n[:2] == ('arg', 2) for n in terms.walk(it)):
+    if copy:
+        if not any(n[0] == 'call' and n[1].endswith('PathImpl::segments') and n[2] and n[2][0][:2] == ('arg', 1) for n in terms.walk(it)):
+            problems.append('the iterator the loop advances is not segments() of self')
+    elif not any(n[:2] == ('arg', 2) for n in terms.walk(it)):
         problems.append('the iterator the loop advances is not the path argument')
     for n in terms.walk(it):
         if n[0] == 'call' and any(w in n[1] for w in ('::rev', '::skip', '::take', '::filter', '::step_by', '::chain', '::peekable')):
@@ -152,10 +161,20 @@ def analyse_append(P):
     def call_value(t):
         return ('opt', 'I') if t is next_t else None
 
+    def strip(x):
+        while True:
+            if x[0] in ('ref', 'deref'):
+                x = x[1]
+            elif x[0] == 'call' and len(x[2]) == 1 and x[1].rsplit('::', 1)[-1] in ('deref', 'deref_mut', 'as_path', 'as_ref', 'borrow'):
+                x = x[2][0]
+            else:
+                return x
+
     def is_handle(x):
-        while x[0] in ('ref', 'deref'):
-            x = x[1]
-        return x[:2] == ('arg', 1)
+        x = strip(x)
+        if not copy:
+            return x[:2] == ('arg', 1)
+        return x == result or (x[0] == 'call' and x[1].endswith('::as_path_mut') and len(x[2]) == 1 and strip(x[2][0]) == result)
 
     def is_item(x):
         """the payload of the loop's next()"""
@@ -168,11 +187,7 @@ def analyse_append(P):
 
     def atom_of(t):
         if t[0] == 'call' and t[1].endswith('::is_empty') and len(t[2]) == 1:
-            x = t[2][0]
-            for n in terms.walk(x):
-                if n[0] == 'call' and n[1].endswith('::deref') and n[2] and is_handle(n[2][0]):
-                    return ('PATH_EMPTY', False)
-            if is_handle(x):
+            if is_handle(t[2][0]):
                 return ('PATH_EMPTY', False)
         return None
     flag_locals = set()
@@ -182,7 +197,7 @@ def analyse_append(P):
         if d.get('I.some') is False:
             continue        # the exit of the loop: examined below
         if stop is None:
-            problems.append('symbolic_append returns from inside the loop while the iterator still has items')
+            problems.append('the function returns from inside the loop while the iterator still has items')
             continue
         if d.get('I.some') is not True:
             problems.append('an iteration goes on without an item of the iterator')
@@ -211,6 +226,41 @@ def analyse_append(P):
                         and not st['rv']['op']['place']['proj'] and st['rv']['op']['place']['local'] in chain:
                     chain.append(st['place']['local'])
         flag_locals.add(frozenset(chain))
+    if copy:
+        # the buffer before the loop: the EMPTY path of the kind of self
+        def kind_atom(t):
+            if t[0] == 'call' and len(t[2]) == 1 and strip(t[2][0])[:2] == ('arg', 1):
+                if t[1].endswith('::is_absolute'):
+                    return ('ABS', False)
+                if t[1].endswith('::is_relative'):
+                    return ('ABS', True)
+            return None
+        n0 = 0
+        for path, asm, stop in pathsens.paths(b, T, kind_atom, start=0, stop={header}):
+            if stop is None:
+                problems.append('the copy returns before its loop')
+                continue
+            n0 += 1
+            d = dict(asm)
+            made = []
+            for bi in path[:-1]:
+                t = b['blocks'][bi]['term']
+                if t['k'] == 'call' and t['dest']['local'] is not None:
+                    c = mir.callee(t) or ''
+                    if c.startswith(PRE) or c.endswith('::as_path_mut'):
+                        made.append('edit:' + c.rsplit('::', 1)[-1])
+                    elif c.rsplit('::', 1)[-1] in ('to_path_buf', 'to_owned', 'into') and t['args']:
+                        x = T.operand(t['args'][0])
+                        made.append(x[1].rsplit('::', 1)[-1] if x[0] == 'item' else '?')
+                    elif c.rsplit('::', 1)[-1] in ('default', 'new', 'from', 'from_vec', 'new_unchecked', 'with_capacity') and 'path' in c.lower():
+                        made.append('?')
+            want = {True: ['EMPTY_ABSOLUTE'], False: ['EMPTY']}.get(d.get('ABS'))
+            if want is None or made != want:
+                kind = {True: 'an absolute path', False: 'a relative path', None: 'a path of unknown kind (no is_absolute test on this route)'}[d.get('ABS')]
+                problems.append(f'for {kind} the copy starts from {made or "nothing recognised"} (expected: the constant {want[0] if want else "EMPTY_ABSOLUTE / EMPTY by kind"})')
+        stats['start_paths'] = n0
+        if n0 == 0:
+            problems.append('no path from the entry of the copy to its loop')
     # the exits of the loop: the None arm of next()
     sw = b['blocks'][next_t['target']]['term']
     if sw['k'] != 'switch':
@@ -245,8 +295,10 @@ def analyse_append(P):
             if not (len(calls) == 1 and len(ok_push) == 1):
                 problems.append(f'after a final "." or ".." on a non-empty path the handle operations are {names or "none"} (one push of the EMPTY segment expected: the path must end with "/")')
         elif d.get('OPEN') is True:
-            if not (len(calls) == len(ok_push) <= 1):
-                problems.append(f'after a final "." or ".." the handle operations are {names} (at most one push of the EMPTY segment expected)')
+            if calls and d.get('PATH_EMPTY') is None:
+                problems.append(f'after a final "." or ".." the handle operations {names} are not guarded by an is_empty() test of the path (an EMPTY segment pushed on an empty path shows as "./")')
+            elif calls:
+                problems.append(f'after a final "." or ".." that left the path empty the handle operations are {names} (none expected)')
         elif calls:
             problems.append(f'after a final ordinary segment (or no segment) the handle operations are {names} (none expected)' if d.get('OPEN') is False
                             else f'after the loop the handle operations {names} do not depend on the flag of the last symbolic_push')
